@@ -205,6 +205,7 @@ func logShape(log []string) string {
 func TestC03(t *testing.T) {
 	res := newResult("C03", "scenarios: random scripts of valid notifications / calls / batches (some handlers held open), optionally with Stop, CancelRequest or pushes at a random position, Concurrency 1..4; each run under many schedules of a deterministic scheduler (testing/synctest + verif hooks: reader, dispatcher, barrier wait/pass, semaphore acquire, nbar.Done, deliver, stop). distinct = distinct event-log shape; non-trivial = at least one notification followed by a later message")
 	defer res.Write(t)
+	installStuckHandler(t, res, "server deadlocked: requests never dispatched")
 	rng := newRNG()
 	var lines []string
 	var metas []any
